@@ -9,4 +9,4 @@ for c in $COMMITS; do git diff "$c~1" "$c" | git apply -R || { git checkout -- .
 for id in "$@"; do /verif/check "$id" quick 2>&1 | grep -E "^VIOLATION|sig=|BUILD" | cut -c1-260; done
 cd /repo && git checkout -- . && git status --porcelain | head -3
 # leave the harness binaries built from the restored tree
-cd /verif/harness && cargo build --offline --profile verif -p vmain -p vop 2>&1 | grep -E "^error" -A8
+cd /verif/harness && (cargo build --offline --profile verif -p vmain; cargo build --offline --profile verif -p vop) 2>&1 | grep -E "^error" -A8
